@@ -43,6 +43,6 @@ class IntervalItem(Item):
                 lower, upper = upper, lower
             return lower <= index <= upper
 
-        if isinstance(self.interval, tuple):
-            return applies(self.interval)
+        if not isinstance(self.interval[0], (tuple, list)):
+            return applies(self.interval)  # type:ignore[arg-type]
         return any(applies(i) for i in self.interval)
